@@ -353,6 +353,48 @@ def rhs_shapes(batch, n, kind):
 
 ENTRY_GENERIC = ["matmul", "rmatmul", "to_dense", "diagonal", "getitem", "sum", "t_matmul", "mul_const", "add_dense"]
 ENTRY_PSD = ["solve", "solve_left", "inv_quad", "logdet", "inv_quad_logdet", "root", "root_inv", "pivoted_cholesky", "sqrt_inv_matmul"]
+# factor-sensitive losses: the weighted output is the FACTOR itself (eigenvectors, Cholesky / pivoted Cholesky factor, Lanczos
+# root and inverse root), so the incoming gradient of the factor is a full random matrix (U^T dL/dU is neither diagonal nor symmetric)
+ENTRY_FACTOR = ["diag_fn", "diag_evecs", "rootdec_both", "chol_factor", "root_dense", "root_inv_dense", "pivchol_factor"]
+
+
+def dense_like(inst):
+    """the representation is the dense matrix itself (Dense, BatchRepeat over Dense)"""
+    k = inst.node
+    return k.kind == "dense" or (k.kind == "brep" and k.kids[0].kind == "dense")
+
+
+def eig_aligned(A, hold):
+    """eigh of the symmetrised dense matrix with columns ordered / signed like the implementation's eigenvectors (a piecewise
+    constant choice: the eigenvector matrix is defined up to column order and signs)."""
+    ev, Q = torch.linalg.eigh((A + A.mT) / 2)
+    Qi = hold["Q"]
+    C = Q.detach().mT @ Qi  # (ref column, impl column)
+    idx = C.abs().argmax(-2)
+    sgn = torch.sign(torch.gather(C, -2, idx.unsqueeze(-2)))
+    Qa = torch.gather(Q, -1, idx.unsqueeze(-2).expand_as(Q)) * sgn
+    return torch.gather(ev, -1, idx), Qa
+
+
+def pivchol_ref(A, piv, rank):
+    """Plain-torch pivoted Cholesky factor for GIVEN pivots (row order), differentiable in A: column m =
+    (A[:, p_m] - L[:, :m] L[p_m, :m]^T) / sqrt(residual diagonal at p_m)."""
+    A = (A + A.mT) / 2
+    bs = A.shape[:-2]
+    n = A.shape[-1]
+    Af = A.reshape(-1, n, n)
+    pf = piv.reshape(-1, n)
+    outs = []
+    for b in range(Af.shape[0]):
+        cols = []
+        for m in range(rank):
+            pm = int(pf[b, m])
+            col = Af[b, :, pm]
+            for c in cols:
+                col = col - c * c[pm]
+            cols.append(col / torch.sqrt(col[pm]))
+        outs.append(torch.stack(cols, -1))
+    return torch.stack(outs, 0).reshape(*bs, n, rank)
 
 
 def entry_fn(entry, op_or_dense, is_op, rhs, aux):
@@ -413,6 +455,54 @@ def entry_fn(entry, op_or_dense, is_op, rhs, aux):
             L = A.pivoted_cholesky(rank=A.shape[-1])
             return L @ (L.mT @ rhs)
         return A @ rhs
+    if entry in ("diag_fn", "diag_evecs"):
+        hold = aux["_hold"]
+        if is_op:
+            ev, Q = A.diagonalization(method=aux.get("method"))
+            Q = Q if torch.is_tensor(Q) else Q.to_dense()
+            hold["Q"] = Q.detach()
+        elif entry == "diag_evecs":
+            ev, Q = eig_aligned(A, hold)
+        else:
+            ev, Q = torch.linalg.eigh((A + A.mT) / 2)
+        if entry == "diag_evecs":  # the eigenvector matrix itself (and the eigenvalues)
+            return torch.cat([Q, ev.unsqueeze(-2)], -2)
+        f = torch.log if aux["f"] == "log" else torch.sqrt
+        return Q @ torch.diag_embed(f(ev)) @ Q.mT  # weighted with a random NON-symmetric W by the caller
+    if entry == "rootdec_both":
+        hold = aux["_hold"]
+        if is_op:
+            from linear_operator.functions._root_decomposition import RootDecomposition
+            R, Ri = RootDecomposition.apply(A.representation_tree(), A._root_decomposition_size(), A.dtype, A.device, A.batch_shape,
+                                            A.matrix_shape, True, True, None, *A.representation())
+            hold["R"], hold["W"], hold["A"] = R.detach(), Ri.detach(), A.to_dense().detach()
+            return torch.cat([R, Ri], -2)
+        # the root is defined up to an orthogonal factor; the reference follows the symmetric gauge dR = 1/2 dA R^-T of the
+        # implementation's own root (Lean: rootDecomposition_backward shows this IS a first-order root and inverse root)
+        R0, W0, A0 = hold["R"], hold["W"], hold["A"]
+        dA = (A + A.mT) / 2 - (A0 + A0.mT) / 2
+        dR = 0.5 * dA @ W0
+        return torch.cat([R0 + dR, W0 - W0 @ dR.mT @ W0], -2)
+    if entry == "chol_factor":
+        return A.cholesky().to_dense() if is_op else torch.linalg.cholesky((A + A.mT) / 2)
+    if entry == "root_dense":
+        if is_op:
+            R = A.root_decomposition().root
+            return R if torch.is_tensor(R) else R.to_dense()
+        return torch.linalg.cholesky((A + A.mT) / 2)
+    if entry == "root_inv_dense":
+        if is_op:
+            R = A.root_inv_decomposition().root
+            return R if torch.is_tensor(R) else R.to_dense()
+        L = torch.linalg.cholesky((A + A.mT) / 2)
+        return torch.linalg.solve_triangular(L, torch.eye(L.shape[-1], dtype=L.dtype).expand_as(L), upper=False).mT
+    if entry == "pivchol_factor":
+        hold = aux["_hold"]
+        if is_op:
+            L, piv = A.pivoted_cholesky(rank=aux["rank"], return_pivots=True)
+            hold["piv"] = piv.detach().clone()
+            return L
+        return pivchol_ref(A, hold["piv"], aux["rank"])
     if entry == "sqrt_inv_matmul":
         if is_op:
             return A.sqrt_inv_matmul(rhs)
@@ -434,6 +524,8 @@ def entry_cases(chk, insts_by, only=None):
                 entries = ["matmul", "rmatmul", "t_matmul"] + (["solve", "solve_left", "inv_quad", "logdet"] if inst.psd else [])
             if inst.light:
                 entries = ["matmul", "to_dense"] + (["solve", "inv_quad_logdet"] if inst.psd else [])
+            if inst.psd and mode in ("full", "bcast") and not (quick and mode == "bcast"):
+                entries += ENTRY_FACTOR
             for entry in entries:
                 if entry in ("diagonal",) and n != m:
                     continue
@@ -444,6 +536,10 @@ def entry_cases(chk, insts_by, only=None):
                 if entry == "sum" and False:
                     continue
                 cfgs = [("default", False, None)]
+                if entry in ("diag_fn", "diag_evecs"):  # default: symeig (eigh); chol0: the Lanczos `Diagonalization` function
+                    cfgs = [("default", False, None), ("chol0", False, 0), ("lanczos", False, None)] + ([("chol0+memeff", True, 0)] if not quick else [])
+                if entry == "rootdec_both":  # the Lanczos `RootDecomposition` function called directly (root AND inverse root)
+                    cfgs = [("chol0", False, 0), ("chol0+memeff", True, 0)]
                 if entry in ("matmul", "solve", "inv_quad", "root", "solve_left"):
                     cfgs.append(("memeff", True, None))
                 if entry in ("solve", "solve_left", "inv_quad", "logdet", "inv_quad_logdet", "root", "root_inv"):
@@ -469,7 +565,7 @@ def entry_cases(chk, insts_by, only=None):
                     sks = ("all", "partial") if (quick or entry not in ("matmul", "solve")) else ("all", "partial", "single")
                     # (leaf subset kind, rhs requires grad, left factor requires grad); None = seed-random
                     combos = [(sk, True if sk == "all" else None, True if sk == "all" else None) for sk in sks]
-                    has_rhs = entry not in ("to_dense", "diagonal", "getitem", "sum", "logdet")
+                    has_rhs = entry not in ("to_dense", "diagonal", "getitem", "sum", "logdet") and entry not in ENTRY_FACTOR
                     if entry == "solve_left":  # ALL requires_grad subsets of {L, R, operator leaves}
                         combos = [(lk, r, l) for lk in ("all", "none", "partial") for r in (True, False) for l in (True, False)
                                   if not (lk == "none" and not r and not l)]
@@ -489,7 +585,10 @@ def entry_cases(chk, insts_by, only=None):
                         rkl = "vec@batched" if rk == "vec" and inst.nb else rk
                         tag = sk if (rreq is None or (rreq and sk == "all" and lreq in (None, True) and entry != "solve_left")) else \
                             f"{sk}+R{int(bool(rreq))}" + (f"L{int(bool(lreq))}" if entry == "solve_left" else "")
-                        cell = f"C07/entry/{entry}/{inst.name}<b={batch}|{mode}>/rhs={rkl}/cfg={cname}/req={tag}"
+                        elab = entry
+                        if entry in ("diag_fn", "diag_evecs"):  # Diagonalization.backward returns ONE dense gradient: see D37
+                            elab = f"{entry}<rep={'dense' if dense_like(inst) else 'structured'}>"
+                        cell = f"C07/entry/{elab}/{inst.name}<b={batch}|{mode}>/rhs={rkl}/cfg={cname}/req={tag}"
                         if only and not cell.startswith(only):
                             continue
                         payload = {"cell": cell, "seed": chk.seed, "tier": chk.tier}
@@ -513,9 +612,22 @@ def one_entry(chk, inst, entry, rk, cname, memeff, cholsz, sk, cell, payload, se
     else:
         rshape = rhs_shapes(nb, rows, rk)
     rhs0 = ops.ri(chk.rng, rshape, -2, 2)
-    if entry in ("to_dense", "diagonal", "getitem", "sum", "logdet"):
+    if entry in ("to_dense", "diagonal", "getitem", "sum", "logdet") or entry in ENTRY_FACTOR:
         rhs0 = None
         rhs_req = False
+    if entry in ENTRY_FACTOR:
+        aux["_hold"] = {}  # values of the implementation side that fix a piecewise-constant choice of the reference (signs, pivots, gauge)
+        aux["f"] = chk.rng.choice(["log", "sqrt"])
+        aux["rank"] = chk.rng.choice([n, max(1, n - 1)])
+        # eigenvector / factor gradients scale with 1 / eigenvalue gap: only well-separated spectra
+        ev = torch.linalg.eigvalsh(inst.dense(inst.params()).detach())
+        gap = float(((ev[..., 1:] - ev[..., :-1]).min(-1).values / ev.max(-1).values).min()) if ev.shape[-1] > 1 else 1.0
+        if entry in ("diag_fn", "diag_evecs") and gap < 3e-2:
+            chk.count("skipped:eigengap:" + entry)
+            return
+        if float(ev.min()) <= 1e-6:
+            chk.count("skipped:not-pd:" + entry)
+            return
     if entry == "getitem":
         choices = [(Ellipsis, slice(0, max(1, n - 1)), slice(None)), (Ellipsis, slice(None), slice(1, m)), (Ellipsis, slice(0, n, 2), slice(0, m, 2))]
         if nb:
@@ -533,7 +645,9 @@ def one_entry(chk, inst, entry, rk, cname, memeff, cholsz, sk, cell, payload, se
     if entry == "inv_quad_logdet":
         aux["w1"], aux["w2"] = float(chk.rng.randint(1, 3)), float(chk.rng.randint(1, 3))
     exact = inst.exact and entry in ENTRY_GENERIC and entry != "mul_const"
-    iterative = cholsz == 0 or entry in ("sqrt_inv_matmul", "pivoted_cholesky", "root", "root_inv")
+    if cname == "lanczos":
+        aux["method"] = "lanczos"  # the Diagonalization function requested explicitly, default max_cholesky_size
+    iterative = (cholsz == 0 and entry != "rootdec_both") or cname == "lanczos" or entry in ("sqrt_inv_matmul", "pivoted_cholesky", "root", "root_inv")
     tol = 1e-9 if exact else (2e-4 if iterative else 1e-7)
     if entry == "sqrt_inv_matmul":
         tol = 5e-3
@@ -589,7 +703,7 @@ def one_entry(chk, inst, entry, rk, cname, memeff, cholsz, sk, cell, payload, se
             chk.count(f"skipped:forward-raises:{entry}:{type(e).__name__}")
             return
         w = W(chk, out_i.shape)
-        lanczos = entry in ("root", "root_inv") and cholsz == 0
+        lanczos = entry in ("root", "root_inv", "rootdec_both") and cholsz == 0
         try:
             gi = torch.autograd.grad((out_i * w).sum(), in_i, allow_unused=True) if in_i else []
         except Exception as e:
@@ -630,7 +744,7 @@ def one_entry(chk, inst, entry, rk, cname, memeff, cholsz, sk, cell, payload, se
         if bool(torch.isnan(b).any()):  # the plain-torch reference is not differentiable here (eigh with repeated eigenvalues)
             chk.count("skipped:reference-nan")
             continue
-        if lab in inst.sym and entry in ENTRY_PSD:
+        if lab in inst.sym and (entry in ENTRY_PSD or entry in ENTRY_FACTOR):
             a, b = (a + a.mT) / 2, (b + b.mT) / 2
         if not close(a, b, exact, tol):
             chk.violation(cell + "/grad", f"gradient w.r.t. {lab} {tuple(ref_t.shape)}: impl {a.flatten()[:6].tolist()} vs dense reference {b.flatten()[:6].tolist()} "
@@ -719,7 +833,10 @@ def run(chk, only=None):
     chk.assumptions += ["torch.autograd applies the chain rule correctly to plain torch code (the dense reference) and to the library's backward formulas",
                         "dual numbers (eps^2 = 0) define the derivative of polynomial operators; floating point is not modelled (integer data are exact)",
                         "FFT-based Toeplitz products and factorisation / iterative paths are compared with tolerances (1e-9 / 1e-7 / 2e-4 on CG, Lanczos paths)",
-                        "functions defined on symmetric matrices are compared along symmetric perturbations of dense symmetric leaves"]
+                        "functions defined on symmetric matrices are compared along symmetric perturbations of dense symmetric leaves",
+                        "factor-sensitive losses: eigenvector matrices are compared up to the implementation's column order / signs and only for a relative "
+                        "eigenvalue gap >= 3e-2; pivoted Cholesky for the implementation's pivots; the Lanczos root / inverse root (defined up to an orthogonal "
+                        "factor) in the symmetric gauge dR = 1/2 dA R^-T of the implementation's own root (the formula RootDecomposition.backward documents)"]
     chk.prove("LinOp.Properties.C07", ["LinOp/C07", "LinOp/Core"])
     torch.set_default_dtype(torch.float32)
     insts_by = gen_instances(chk)
